@@ -152,3 +152,23 @@ def shrink_dense(sc, extra=None):
                     c['signals'][v][i][1] = y
                     yield c
                     break
+
+
+def ref_defined(asts, dense, data, n=None):
+    """False when a reference evaluation of any of the formulas is undefined (NaN, domain error, overflow): such a
+    scenario is discarded, because an exception or NaN from the real monitor would then not be a defect."""
+    from ..ref.discrete import eval_discrete, RefError
+    from ..ref import dense as D
+    try:
+        for a in asts:
+            if dense:
+                vs = sg.vars_of(a)
+                if vs:
+                    D.eval_dense(a, dict((v, data[v]) for v in vs))
+            else:
+                eval_discrete(a, data, n)
+    except RefError:
+        return False
+    except (KeyError, IndexError, ValueError):
+        return False
+    return True
